@@ -59,9 +59,8 @@ func resolveStruct(rv reflect.Value, fieldName string) (any, bool) {
 		return fv.Interface(), true
 	}
 
-	// Try JSON tag
-	for i := range rt.NumField() {
-		f := rt.Field(i)
+	// Try JSON tag (also of the promoted fields of embedded structs)
+	for _, f := range reflect.VisibleFields(rt) {
 		tag := f.Tag.Get("json")
 		if tag == "" {
 			continue
@@ -70,8 +69,8 @@ func resolveStruct(rv reflect.Value, fieldName string) (any, bool) {
 		// Parse the JSON tag, stripping options (e.g., "user_id,omitempty" -> "user_id")
 		tagName := strings.Split(tag, ",")[0]
 		if tagName == fieldName {
-			fv := rv.FieldByIndex(f.Index)
-			if !fv.CanInterface() {
+			fv, err := rv.FieldByIndexErr(f.Index)
+			if err != nil || !fv.CanInterface() {
 				return nil, false
 			}
 			return fv.Interface(), true
